@@ -324,6 +324,15 @@ pub fn seq<'text, 'a, Sc>(tokens: &'a [Sc::Token])
     }
 }
 
+/// Returns true if no unfiltered token and no unrecognized text remains in the
+/// lexer: everything up to the end of the text is filtered out.
+fn only_filtered_tokens_remain<'text, Sc>(lexer: &Lexer<'text, Sc>) -> bool
+    where Sc: Scanner,
+{
+    let mut rest = lexer.clone();
+    rest.next().is_none() && rest.is_empty()
+}
+
 /// Returns a parser attempts each of the given tokens in sequence, returning
 /// the number of tokens successfully parsed.
 /// 
@@ -357,6 +366,9 @@ pub fn seq_count<'text, 'a, Sc>(tokens: &'a [Sc::Token])
 
                 // Incorrect token.
                 Some(_) => break,
+
+                // Only filtered tokens remain: the end of the text.
+                None if only_filtered_tokens_remain(&lexer) => break,
 
                 // Unrecognized token.
                 None => {
